@@ -78,6 +78,7 @@ func leaves() []val {
 		{name: "nul-newline", v: "\u0000\n", want: "\u0000\n"},
 		{name: "non-ascii", v: "\u00e9", want: "\u00e9"},
 		{name: "html", v: "<script>&", want: "<script>&"},
+		{name: "percent-verbs", v: "100% %s %d %v %% %!", want: "100% %s %d %v %% %!"},
 		{name: "string70000", v: big70k, want: big70k},
 		{name: "struct", v: rec{A: 7, B: `x"y`, d: 3}, want: map[string]interface{}{"a": num("7"), "b": `x"y`}},
 		{name: "nil-struct-pointer", v: (*rec)(nil), want: nil},
@@ -111,7 +112,7 @@ func unmarshalables() []val {
 	return l
 }
 
-var mapKeys = []string{"a", "code", "data", "server"}
+var mapKeys = []string{"a", "code", "data", "server", "r%d"}
 
 func slice1(a val) val {
 	return val{name: "[" + a.name + "]", v: []interface{}{a.v}, want: []interface{}{a.want}, ok: a.ok, depth: a.depth + 1, parts: a.parts}
